@@ -77,8 +77,8 @@ Record config := mkConfig {
 Inductive ppc :=
 | P1    (* load __connector *)
 | P2    (* out_q.put(m)            (no connector) *)
-| P5    (* load __msg_filter       (the "is not None" test) *)
-| P6    (* load __msg_filter again and apply it *)
+| P5    (* load __msg_filter once into a local; test it and apply it *)
+| P6    (* the code as found: a SECOND load of __msg_filter, then the call; no longer reached *)
 | P7    (* out_q.put(m)            (filter matched) *)
 | P8l   (* load connector          (argument of the debug log) *)
 | P8a   (* load connector *)
@@ -249,7 +249,10 @@ Definition pstep (cfg : config) (p : ppc) (m : msg) (s : state) : state * pres :
   match p with
   | P1 => (s, if has_conn cfg then PNext P5 else PNext P2)
   | P2 => (set_out_q (out_q s ++ [m]) s, PFin)
-  | P5 => (s, match filt s with None => PNext P8l | Some _ => PNext P6 end)
+  | P5 => (s, match filt s with
+              | None => PNext P8l
+              | Some f => if matches f m then PNext P7 else PNext P8l
+              end)
   | P6 => (s, match filt s with
               | None => PCrash      (* calling None: TypeError in the running thread *)
               | Some f => if matches f m then PNext P7 else PNext P8l
